@@ -2,14 +2,7 @@
 #include "seqgen.hpp"
 using namespace vf;
 
-#ifdef VERIF_WRAP
-// libc interposition (rel variant only, linked with -Wl,--wrap=malloc,--wrap=free,--wrap=time): counts calls made
-// inside an API window and outside the harness's own stubs.
-extern "C" { void* __real_malloc(size_t); void __real_free(void*); time_t __real_time(time_t*);
-void* __wrap_malloc(size_t n) { auto& w = deps::wrap(); if (w.window && !w.in_stub) w.malloc_calls++; return __real_malloc(n); }
-void __wrap_free(void* p) { auto& w = deps::wrap(); if (w.window && !w.in_stub) w.free_calls++; __real_free(p); }
-time_t __wrap_time(time_t* t) { auto& w = deps::wrap(); if (w.window && !w.in_stub) { w.time_calls++; if (w.fake) { if (t) *t = (time_t)w.fake_time; return (time_t)w.fake_time; } } return __real_time(t); } }
-#endif
+#include "wrap.hpp"
 
 static std::string oracle(const Case& c) {
     Evidence& ev = W().ev;
@@ -23,6 +16,35 @@ static std::string oracle(const Case& c) {
         unsigned v = img[8] | (img[9] << 8); if ((v & 1023u) != model::birthday_index(c.u("t"))) return "birthday does not come from the injected clock";
         if (k.rand_total != 19) return "create took " + std::to_string(k.rand_total) + " random bytes"; if (k.time_calls < 1) return "create did not ask the injected clock";
         ev.eval(); ev.nt(c); ev.count("single-bit-random-output"); if (b == 0 || b == 151) ev.sample("bit", c); return "";
+    }
+    if (c.get("kind") == "pair") {
+        // "a later injection replaces every entry", for injections that change two entries at once while all others stay the same:
+        // mode 0: both normalisers are one shared function of set A, then one shared function of set B; mode 1: the two normaliser
+        // functions of one set are swapped; mode 2: only u8_nfkd changes; mode 3: only u8_nfc changes.
+        int mode = (int)c.u("mode"); deps::kit(0).reset_all(); deps::kit(1).reset_all();
+        if (mode == 1 && W().args.variant == "asan") return "";   /* with assertions on, polyseed_inject self-tests the word lists with u8_nfkd: a swapped pair is not a valid dependency set there */
+        polyseed_dependency d1 = deps::make<0>(), d2 = deps::make<0>();
+        if (mode == 0) { d1.u8_nfc = d1.u8_nfkd = &deps::f_nfkd<0>; d2.u8_nfc = d2.u8_nfkd = &deps::f_nfkd<1>; }
+        else if (mode == 1) { d2.u8_nfc = &deps::f_nfkd<0>; d2.u8_nfkd = &deps::f_nfc<0>; }
+        else if (mode == 2) { d2.u8_nfkd = &deps::f_nfkd<1>; } else { d2.u8_nfc = &deps::f_nfc<1>; }
+        polyseed_inject(&d1); polyseed_enable_features(0); const lib::LangEntry* es = lib::Registry::get().by_name("Spanish"); if (!es) return "";
+        polyseed_data* s = nullptr; if (polyseed_create(0, &s) != 0) return "create failed"; polyseed_str out; polyseed_encode(s, es->lang, (polyseed_coin)0, out);
+        std::string probe = std::string(out) + " \xc3\xa9";   // 17 tokens with a non-ASCII byte: forces one u8_nfkd call, answers NUM_WORDS
+        polyseed_inject(&d2); memset(&d2, 0x41, sizeof d2);
+        deps::Kit &a = deps::kit(0), &b = deps::kit(1); uint64_t a_nfc = a.nfc_calls, a_nfkd = a.nfkd_calls, b_nfc = b.nfc_calls, b_nfkd = b.nfkd_calls;
+        polyseed_data* t = nullptr; int st = polyseed_decode(probe.c_str(), (polyseed_coin)0, nullptr, &t); if (st == 0) polyseed_free(t);
+        uint64_t da_nfc = a.nfc_calls - a_nfc, da_nfkd = a.nfkd_calls - a_nfkd, db_nfc = b.nfc_calls - b_nfc, db_nfkd = b.nfkd_calls - b_nfkd; std::string msg;
+        // which stub must have served the decomposition after the second injection
+        if (mode == 0 || mode == 2) { if (db_nfkd != 1 || da_nfkd || da_nfc) msg = "decomposition after the second injection was not served by the newly injected u8_nfkd"; }
+        else if (mode == 1) { if (da_nfc != 1 || da_nfkd) msg = "after swapping the two normaliser entries the library still calls the old u8_nfkd"; }
+        else { if (da_nfkd != 1 || db_nfkd || db_nfc) msg = "changing only u8_nfc disturbed u8_nfkd"; }
+        if (msg.empty()) { uint64_t a2 = a.nfc_calls, b2 = b.nfc_calls, a3 = a.nfkd_calls; polyseed_encode(s, es->lang, (polyseed_coin)0, out);   // composition goes to the entry injected as u8_nfc
+            if (mode == 0 && (b.nfkd_calls - b_nfkd - db_nfkd) != 1) msg = "composition after the second injection was not served by the newly injected u8_nfc";
+            if (mode == 1 && a.nfkd_calls - a3 != 1) msg = "after swapping the two normaliser entries the library still calls the old u8_nfc";
+            if (mode == 3 && b.nfc_calls - b2 != 1) msg = "composition after the second injection was not served by the newly injected u8_nfc"; (void)a2; }
+        polyseed_free(s); deps::inject(0);
+        if (!msg.empty()) return msg + " (mode " + std::to_string(mode) + ")";
+        ev.eval(); ev.nt(c); ev.count("pairwise-entry-replacement"); ev.sample("pair", c); return "";
     }
     std::vector<ops::Op> seq = ops::from_hex(c.get("ops"));
     ops::Machine m; m.fl.check_model = true; m.fl.check_routing = true; m.fl.check_ledger = true; m.fl.allow_inject = true;
@@ -41,6 +63,7 @@ static void run() {
     Args& a = W().args; { Case c; c.set("phase", "setup"); set_current(c); deps::inject(0); model::require_self_check(); }
     uint64_t done = 0;
     for (int inv = 0; inv < 2; inv++) for (int b = 0; b <= 152; b++) { if ((b + inv) % a.nworkers != a.worker) continue; Case c; c.set("kind", "bit"); c.set("bit", (uint64_t)b); c.set("invert", (uint64_t)inv); c.set("t", model::EPOCH + (uint64_t)b * 7777777ull); set_current(c); std::string m = oracle(c); done++; if (!m.empty() && enum_fail(c, m)) return; }
+    for (int mode = 0; mode < 4; mode++) if (mode % a.nworkers == a.worker % 4 && a.worker < 4) { Case c; c.set("kind", "pair"); c.set("mode", (uint64_t)mode); set_current(c); std::string m = oracle(c); if (!m.empty() && enum_fail(c, m)) return; }
     W().ev.enumerated["single-bit (and complemented) random-source outputs plus the all-zero and all-one outputs, 153 x 2"] += done;
     seqgen::Weights wt{{10, 3, 10, 5, 5, 5, 5, 4, 2, 4, 2, 6, 1, 1}};
     rc_run("c18-histories", a.n(40000, 400000), 100, [&]() {
